@@ -12,6 +12,7 @@ use crate::json::{hex_cap, Json};
 use crate::rng::{mix, Rng};
 use crate::spec::{self, PreOutcome};
 use crate::syncdrive::{self as sd, Chunking, Plan, Policy, SDriver};
+
 use crate::wire;
 
 pub fn config(buffer: usize, conns: usize) -> Config {
@@ -46,6 +47,8 @@ pub fn gen_scenario(rng: &mut Rng, big: bool) -> Scenario {
         extra_pct_pre: 10,
         extra_pct_stream: *rng.pick(&[0usize, 15, 40]),
         tag_base: 1,
+        extras_pre: &gen::EXTRAS_PREAMBLE,
+        extras_stream: &gen::EXTRAS_STREAM,
     };
     let mut bytes = Vec::new();
     let built = gen::push_request(rng, &mut bytes, &spec);
@@ -73,38 +76,72 @@ fn report(c: &mut Case, sc: &Scenario, d: &SDriver, sig: &str, msg: String) {
     );
 }
 
+#[derive(Clone, Default)]
+pub struct RunOpts {
+    pub early: bool,
+    pub check_pre_replies: bool,
+    pub chunk_pre: Option<Chunking>,
+    pub chunk_stream: Option<Chunking>,
+    pub policy: Option<Policy>,
+}
+
 /// One scenario through the preamble parser and one random stream-parser schedule.
 pub fn run_one(c: &mut Case, sc: &Scenario, early: bool) {
+    run_scenario(c, sc, RunOpts { early, ..RunOpts::default() });
+}
+
+/// Returns true if the scenario ran to its end without a violation.
+pub fn run_scenario(c: &mut Case, sc: &Scenario, opts: RunOpts) -> bool {
+    let early = opts.early;
     let cfg = config(sc.buffer, sc.conns);
     let pre = spec::model_preamble(&sc.bytes, 0);
     let PreOutcome::Done(info) = &pre.outcome else {
         c.violation("harness-model-incomplete", Json::obj().with("scenario", sc.desc.clone()).with("model", format!("{:?}", pre.outcome)));
-        return;
+        return false;
     };
     let model = spec::model_streams(&sc.bytes, info.end_off, info.id, info.role);
     let structural = sd::structural_offsets(&sc.bytes);
 
     // preamble
-    let mut chunk = sd::pick_chunking(&mut c.rng, &structural);
+    let mut chunk = opts.chunk_pre.clone().unwrap_or_else(|| sd::pick_chunking(&mut c.rng, &structural));
     let run = sd::drive_request(request::Parser::new(&cfg), &sc.bytes, 0, sc.bytes.len(), &mut chunk, &mut c.rng, false);
     if let Some((s, m)) = run.problems.first() {
         c.violation(s.clone(), Json::obj().with("scenario", sc.desc.clone()).with("problem", m.clone()).with("phase", "preamble"));
-        return;
+        return false;
     }
     if !run.done {
         c.violation("preamble-not-done", Json::obj().with("scenario", sc.desc.clone()).with("fed", run.fed));
-        return;
+        return false;
+    }
+    if opts.check_pre_replies {
+        match spec::decode_output(&run.out) {
+            Ok((recs, tail)) if tail == run.out.len() => {
+                if let Err(m) = spec::replies_match(&pre.replies, &recs, &sc.conns.to_string()) {
+                    c.violation("preamble-replies", Json::obj().with("scenario", sc.desc.clone()).with("problem", m).with("input_hex", hex_cap(&sc.bytes, 20000)).with("output_hex", hex_cap(&run.out, 2000)));
+                    return false;
+                }
+                c.l.add("replies_checked", recs.len() as u64);
+            }
+            Ok(_) => {
+                c.violation("output-partial-record", Json::obj().with("scenario", sc.desc.clone()).with("phase", "preamble"));
+                return false;
+            }
+            Err(m) => {
+                c.violation("output-malformed", Json::obj().with("scenario", sc.desc.clone()).with("problem", m));
+                return false;
+            }
+        }
     }
     let parser = run.parser.expect("parser");
     let sp = match crate::ev::guarded(|| parser.into_stream_parser()) {
         Ok(Ok(p)) => p,
         Ok(Err(e)) => {
             c.violation("preamble-error", Json::obj().with("scenario", sc.desc.clone()).with("error", sd::err_kind(&e)));
-            return;
+            return false;
         }
         Err(p) => {
             c.violation(crate::ev::panic_signature(&p), Json::obj().with("scenario", sc.desc.clone()).with("panic", p));
-            return;
+            return false;
         }
     };
     let order = wire::role_input_streams(sc.role);
@@ -112,9 +149,9 @@ pub fn run_one(c: &mut Case, sc: &Scenario, early: bool) {
     if d.active() != order.first().copied() {
         let a = d.active();
         report(c, sc, &d, "initial-active-stream", format!("fresh stream parser has active stream {a:?}, role order is {order:?}"));
-        return;
+        return false;
     }
-    let pol = Policy::random(&mut c.rng);
+    let pol = opts.policy.clone().unwrap_or_else(|| Policy::random(&mut c.rng));
     let plans: Vec<Plan> = order
         .iter()
         .map(|_| {
@@ -129,7 +166,7 @@ pub fn run_one(c: &mut Case, sc: &Scenario, early: bool) {
             }
         })
         .collect();
-    let mut chunk2 = sd::pick_chunking(&mut c.rng, &structural);
+    let mut chunk2 = opts.chunk_stream.clone().unwrap_or_else(|| sd::pick_chunking(&mut c.rng, &structural));
     sd::run_schedule(&mut d, &mut c.rng, &mut chunk2, &pol, &plans, order, Some(&model));
 
     // evidence counters
@@ -151,36 +188,36 @@ pub fn run_one(c: &mut Case, sc: &Scenario, early: bool) {
 
     if let Some((s, m)) = d.problems.first().cloned() {
         report(c, sc, &d, &s, m);
-        return;
+        return false;
     }
     if let Some(e) = &d.err {
         if model.abort_off.is_none() {
             let e = e.clone();
             report(c, sc, &d, "unexpected-error", format!("stream parser failed with {e} on well-formed input"));
         }
-        return;
+        return false;
     }
     if d.cnt.wedges > 0 || d.cnt.budget_exhausted > 0 {
         if std::env::var("C02_DEBUG_WEDGE").is_ok() {
             eprintln!("WEDGE {}:{} {} fed={} trace={:?}", c.workload, c.index, sc.desc.render(), d.fed, d.trace.iter().rev().take(12).rev().collect::<Vec<_>>());
         }
-        return; // inconclusive for this case (counted)
+        return true; // inconclusive for this case (counted)
     }
     // final oracle: every stream read to its end equals E(s)
     for (i, &t) in order.iter().enumerate() {
         let Some(e) = d.epochs.iter().find(|e| e.stream == Some(t)) else {
             report(c, sc, &d, "stream-never-active", format!("stream {t} never became active"));
-            return;
+            return false;
         };
         let si = &model.streams[i];
         if plans[i] == Plan::ReadAll {
             if !e.end_seen {
                 report(c, sc, &d, "stream-end-missing", format!("all input fed but stream_end never reported for stream {t}"));
-                return;
+                return false;
             }
             if e.delivered != si.content {
                 report(c, sc, &d, "stream-content-mismatch", format!("stream {t}: delivered {} bytes, content has {}", e.delivered.len(), si.content.len()));
-                return;
+                return false;
             }
             c.l.count("streams_read_to_end");
         } else {
@@ -193,28 +230,28 @@ pub fn run_one(c: &mut Case, sc: &Scenario, early: bool) {
         Ok((recs, tail)) => {
             if tail != d.out_all.len() {
                 report(c, sc, &d, "output-partial-record", format!("parser output ends with an incomplete record ({} stray bytes)", d.out_all.len() - tail));
-                return;
+                return false;
             }
             if let Err(m) = spec::replies_match(&model.replies, &recs, &max_conns) {
                 report(c, sc, &d, "stream-phase-replies", m);
-                return;
+                return false;
             }
             c.l.add("replies_checked", recs.len() as u64);
         }
         Err(m) => {
             report(c, sc, &d, "output-malformed", m);
-            return;
+            return false;
         }
     }
     // unread remainder after everything was parsed: empty suffix at a record boundary
     if let Some(off) = d.probe_leftover() {
         if off != model.scanned_to {
             report(c, sc, &d, "leftover-offset", format!("unread remainder starts at offset {off}, expected {}", model.scanned_to));
-            return;
+            return false;
         }
     } else if let Some((s, m)) = d.problems.first().cloned() {
         report(c, sc, &d, &s, m);
-        return;
+        return false;
     }
     let total: usize = model.streams.iter().map(|s| s.content.len()).sum();
     if total > 0 {
@@ -223,6 +260,7 @@ pub fn run_one(c: &mut Case, sc: &Scenario, early: bool) {
         c.l.sig(h);
     }
     c.l.count(&format!("chunking_{}", chunk2.family()));
+    true
 }
 
 /// Fixed, seed-independent cases that reach every gated observation.
